@@ -3523,6 +3523,380 @@ Proof.
   - apply IH. exact Hc.
 Qed.
 
+
+(* ================================================================== *)
+(* C08, run level: a publish whose context is already cancelled when PublishContext is called enters no handler at all,
+   whatever the schedule does afterwards.  [badp p] marks the instructions that would lead into a handler body for
+   publish p: a started call, or a pending dispatch / delivery start of a Once handler (the one case in which a
+   delivery runs although the context is cancelled: it was claimed while the context was live - impossible here). *)
+Definition badp (p : nat) (i : instr) : bool :=
+  match i with
+  | IHandlerStart p' _ _ | IEnter p' _ | IRecover p' _ _ => Nat.eqb p' p
+  | IDispatch p' h | ITaskStart p' h => Nat.eqb p' p && h_once (r_spec h)
+  | _ => false
+  end.
+Definition nobad (p : nat) (c : list instr) : Prop := forall i, In i c -> badp p i = false.
+Lemma nobad_app p a b : nobad p a -> nobad p b -> nobad p (a ++ b).
+Proof. intros Ha Hb i Hi. apply in_app_or in Hi. destruct Hi; auto. Qed.
+Lemma nobad_cons p i c : badp p i = false -> nobad p c -> nobad p (i :: c).
+Proof. intros Hi Hc x [<-|Hx]; auto. Qed.
+Lemma nobad_nil p : nobad p []. Proof. intros i []. Qed.
+Lemma nobad_tail p i c : nobad p (i :: c) -> nobad p c.
+Proof. intros H x Hx. apply H. right. exact Hx. Qed.
+Lemma nobad_acts p l : nobad p (acts l).
+Proof. intros i Hi. unfold acts in Hi. apply in_map_iff in Hi. destruct Hi as [a [<- _]]. reflexivity. Qed.
+Lemma nobad_entries p p0 l : nobad p (map (IEntry p0) l).
+Proof. intros i Hi. apply in_map_iff in Hi. destruct Hi as [a [<- _]]. reflexivity. Qed.
+Lemma nobad_shards p l : nobad p (map IClearShard l).
+Proof. intros i Hi. apply in_map_iff in Hi. destruct Hi as [a [<- _]]. reflexivity. Qed.
+Lemma nobad_after_recover p cfg p0 h async panicked : nobad p (after_recover cfg p0 h async panicked).
+Proof.
+  unfold after_recover. repeat apply nobad_app;
+    [destruct (h_seq (r_spec h)) | destruct (panicked && c_panic_handler cfg) | destruct (c_obs cfg) | destruct async];
+    try apply nobad_nil; intros i [<-|[]]; reflexivity.
+Qed.
+Lemma nobad_call_handler p P p0 h async obs : p0 <> p -> nobad p (call_handler P p0 h async obs).
+Proof.
+  intros Hne. apply Nat.eqb_neq in Hne. unfold call_handler. repeat apply nobad_app; try apply nobad_acts;
+    [destruct obs | destruct (h_seq (r_spec h)) | | ]; try apply nobad_nil; intros i [<-|[]]; cbn [badp]; try reflexivity; exact Hne.
+Qed.
+Lemma nobad_unwind p l p0 h async r : unwind l = Some (p0, h, async, r) -> nobad p l -> nobad p r.
+Proof.
+  intros U Hl. apply unwind_spec in U. destruct U as [pre [-> _]]. intros i Hi. apply Hl.
+  apply in_or_app. right. right. exact Hi.
+Qed.
+
+Ltac nb_tac Nr :=
+  repeat first
+    [ exact Nr
+    | apply nobad_nil
+    | apply nobad_after_recover
+    | apply nobad_acts
+    | apply nobad_entries
+    | apply nobad_shards
+    | apply nobad_cons; [reflexivity|]
+    | apply nobad_app
+    | match goal with |- nobad _ (if ?b then _ else _) => destruct b end
+    | match goal with |- nobad _ (match ?b with _ => _ end) => destruct b end
+    | (let i := fresh in let H := fresh in intros i H; destruct H as [<-|[]]; reflexivity)
+    | (let i := fresh in let H := fresh in intros i H; destruct H) ].
+
+Lemma upd_pub_next_pid s p f : next_pid (upd_pub s p f) = next_pid s.
+Proof. unfold upd_pub. destruct (assoc_get (pubs s) p); reflexivity. Qed.
+Lemma get_pub_cont s a c q : get_pub (cont s a c) q = get_pub s q.
+Proof. reflexivity. Qed.
+Lemma upd_pub_ctx s p f q : (forall r, pb_ctx (f r) = pb_ctx r) -> pb_ctx (get_pub (upd_pub s p f) q) = pb_ctx (get_pub s q).
+Proof.
+  intros Hf. unfold upd_pub, get_pub. destruct (assoc_get (pubs s) p) as [r|] eqn:E; [|reflexivity]. cbn [pubs].
+  destruct (Nat.eq_dec p q) as [->|N]; [rewrite assoc_get_set_same, E; apply Hf | rewrite assoc_get_set_other by exact N; reflexivity].
+Qed.
+
+Ltac fin_ctx :=
+  split; [rewrite ?get_pub_cont; rewrite ?upd_pub_ctx by (intros; reflexivity); unfold get_pub; cbn [cont set_code set_registry pubs]; reflexivity
+         | cbn [cont set_code set_registry next_pid]; rewrite ?upd_pub_next_pid; cbn [next_pid]; lia].
+
+(* the state part: the publish exists, its context stays the one it was made with *)
+Lemma step_pub_ctx P cfg s a i rest s' ls p :
+  step_instr P cfg s a i rest = Some (s', ls) -> p < next_pid s ->
+  pb_ctx (get_pub s' p) = pb_ctx (get_pub s p) /\ p < next_pid s'.
+Proof.
+  intros H Hp. destruct i; cbn [step_instr] in H.
+  all: try (break_head H; try discriminate; inversion H; subst; clear H; solve [fin_ctx]).
+  (* IDo *)
+  destruct a0; cbn [step_instr] in H; break_head H; try discriminate; inversion H; subst; clear H; try solve [fin_ctx].
+  (* APub: a new publish, not p *)
+  split; [|cbn [cont set_code next_pid]; lia]. unfold get_pub. cbn [cont set_code pubs].
+  rewrite assoc_get_set_other by lia. reflexivity.
+Qed.
+
+(* one step keeps the code of everybody free of entries for p, given that p's context is cancelled *)
+Ltac fin_nobad tac :=
+  split; [eexists; split;
+          [first [apply code_cont | (cbn [cont set_code code]; rewrite ?upd_pub_code; apply assoc_get_set_same)]
+          | tac]|];
+  split; [let h0 := fresh "h0" in let Hin := fresh "Hin" in
+          intros h0 Hin; cbn [cont set_code set_registry entered] in Hin; rewrite ?upd_pub_entered in Hin; exact Hin|];
+  let b := fresh "b" in let c0 := fresh "c0" in let Nba := fresh "Nba" in let Hb := fresh "Hb" in
+  intros b c0 Nba Hb; left; cbn [cont set_code code] in Hb; rewrite ?upd_pub_code in Hb; cbn [code] in Hb;
+  rewrite assoc_get_set_other in Hb by congruence; exact Hb.
+
+Lemma step_nobad p P cfg s a i rest s' ls :
+  is_cancelled s (pb_ctx (get_pub s p)) = true -> p < next_pid s ->
+  nobad p (i :: rest) -> step_instr P cfg s a i rest = Some (s', ls) ->
+  (exists newc, assoc_get (code s') a = Some newc /\ nobad p newc) /\
+  (forall h, In (p, h) (entered s') -> In (p, h) (entered s)) /\
+  (forall b c, b <> a -> assoc_get (code s') b = Some c -> assoc_get (code s) b = Some c \/ nobad p c).
+Proof.
+  intros Hc Hp Nb H. pose proof (nobad_tail _ _ _ Nb) as Nr. pose proof (Nb i (or_introl eq_refl)) as Ni.
+  assert (Hcall : forall p0 h async obs, is_cancelled s (pb_ctx (get_pub s p0)) = false -> nobad p (call_handler P p0 h async obs)).
+  { intros p0 h async obs Hf. apply nobad_call_handler. intros ->. congruence. }
+  destruct i; cbn [step_instr] in H.
+  all: try (break_head H; try discriminate; inversion H; subst; clear H; solve [fin_nobad ltac:(nb_tac Nr)]).
+  - (* IDo *)
+    destruct a0; cbn [step_instr] in H; break_head H; try discriminate; inversion H; subst; clear H;
+      try solve [fin_nobad ltac:(nb_tac Nr)].
+    + (* AShutdown: the waiter goroutine *)
+      split; [eexists; split; [apply code_cont | nb_tac Nr]|]. split; [intros h0 Hin; exact Hin|].
+      intros b c0 Nba Hb. cbn [cont set_code code] in Hb. rewrite assoc_get_set_other in Hb by congruence.
+      destruct (Nat.eq_dec (next_actor s) b) as [<-|N].
+      * rewrite assoc_get_set_same in Hb. inversion Hb; subst. right. intros x [<-|[]]. reflexivity.
+      * rewrite assoc_get_set_other in Hb by exact N. left. exact Hb.
+    + (* APanic recovered *)
+      match goal with U : unwind rest = Some (?p0, ?h, ?async, ?r) |- _ => pose proof (nobad_unwind p rest p0 h async r U Nr) as Nr2 end.
+      fin_nobad ltac:(apply nobad_app; [apply nobad_after_recover | exact Nr2]).
+  - (* IClaim: a Once handler is claimed only while the context is live *)
+    break_head H; try discriminate; inversion H; subst; clear H; try solve [fin_nobad ltac:(nb_tac Nr)].
+    + fin_nobad ltac:(apply nobad_cons; [cbn [badp]; destruct (Nat.eqb p0 p) eqn:E; [apply Nat.eqb_eq in E; subst; congruence | reflexivity] | exact Nr]).
+    + fin_nobad ltac:(apply nobad_cons; [cbn [badp]; match goal with E : h_once _ = false |- _ => rewrite E end; apply andb_false_r | exact Nr]).
+  - (* IDispatch *)
+    break_head H; try discriminate; inversion H; subst; clear H; try solve [fin_nobad ltac:(nb_tac Nr)].
+    + (* async: the new goroutine starts a delivery of the same handler *)
+      split; [eexists; split; [apply code_cont | exact Nr]|]. split; [intros h0 Hin; exact Hin|].
+      intros b c0 Nba Hb. cbn [cont set_code code] in Hb. rewrite assoc_get_set_other in Hb by congruence.
+      destruct (Nat.eq_dec (next_actor s) b) as [<-|N].
+      * rewrite assoc_get_set_same in Hb. inversion Hb; subst. right. intros x [<-|[]]. exact Ni.
+      * rewrite assoc_get_set_other in Hb by exact N. left. exact Hb.
+    + (* sync, context live: not publish p *)
+      fin_nobad ltac:(apply nobad_app; [apply Hcall; assumption | exact Nr]).
+  - (* IEnter: not for p *)
+    inversion H; subst; clear H. cbn [badp] in Ni.
+    split; [eexists; split; [apply code_cont | exact Nr]|]. split.
+    + intros h0 Hin. cbn [cont set_code entered] in Hin. apply in_app_or in Hin. destruct Hin as [Hin|[E|[]]]; [exact Hin|].
+      inversion E; subst. rewrite Nat.eqb_refl in Ni. discriminate.
+    + intros b c0 Nba Hb. left. cbn [cont set_code code] in Hb. rewrite assoc_get_set_other in Hb by congruence. exact Hb.
+  - (* ITaskStart: runs the handler only if the context is live or the handler is a Once handler - neither for p *)
+    break_head H; try discriminate; inversion H; subst; clear H; try solve [fin_nobad ltac:(nb_tac Nr)].
+    fin_nobad ltac:(apply nobad_app; [apply nobad_call_handler; intros ->; cbn [badp] in Ni; rewrite Nat.eqb_refl in Ni; cbn [andb] in Ni;
+                                      match goal with E : _ && negb _ = false |- _ => rewrite Hc, Ni in E; discriminate E end | exact Nr]).
+Qed.
+
+
+
+(* every publish mentioned anywhere in the code, or in the entry log, has already been made *)
+Definition pid_of (i : instr) : option nat :=
+  match i with
+  | IPubStart p | IBeforeLegacy p | IBeforeCtx p _ | IPersistMarshal p | IPersistObsStart p | IPersistLock p
+  | IPersistAppend p | IPersistAppendDone p | IPersistObsDone p _ | IPersistErr p | ISnapshot p | IEntry p _
+  | IFilterDone p _ | IClaim p _ | IDispatch p _ | IHandlerStart p _ _ | IEnter p _ | IRecover p _ _
+  | IPanicHandler p _ | IHandlerDone p _ _ | ITaskStart p _ | IRemoveOnce p | IAfterLegacy p | IAfterCtx p
+  | IPubDone p => Some p
+  | _ => None
+  end.
+Definition pid_ok (n : nat) (i : instr) : bool := match pid_of i with Some q => Nat.ltb q n | None => true end.
+Definition plt (n : nat) (c : list instr) : Prop := forall i, In i c -> pid_ok n i = true.
+Lemma plt_app n a b : plt n a -> plt n b -> plt n (a ++ b).
+Proof. intros Ha Hb i Hi. apply in_app_or in Hi. destruct Hi; auto. Qed.
+Lemma plt_cons n i c : pid_ok n i = true -> plt n c -> plt n (i :: c).
+Proof. intros Hi Hc x [<-|Hx]; auto. Qed.
+Lemma plt_nil n : plt n []. Proof. intros i []. Qed.
+Lemma plt_tail n i c : plt n (i :: c) -> plt n c.
+Proof. intros H x Hx. apply H. right. exact Hx. Qed.
+Lemma plt_weaken n m c : n <= m -> plt n c -> plt m c.
+Proof.
+  intros Hle H i Hi. specialize (H i Hi). unfold pid_ok in *. destruct (pid_of i); [|reflexivity].
+  apply Nat.ltb_lt in H. apply Nat.ltb_lt. lia.
+Qed.
+Lemma plt_acts n l : plt n (acts l).
+Proof. intros i Hi. unfold acts in Hi. apply in_map_iff in Hi. destruct Hi as [a [<- _]]. reflexivity. Qed.
+Lemma plt_entries n p l : p < n -> plt n (map (IEntry p) l).
+Proof. intros Hp i Hi. apply in_map_iff in Hi. destruct Hi as [a [<- _]]. unfold pid_ok. cbn. apply Nat.ltb_lt. exact Hp. Qed.
+Lemma plt_shards n l : plt n (map IClearShard l).
+Proof. intros i Hi. apply in_map_iff in Hi. destruct Hi as [a [<- _]]. reflexivity. Qed.
+Lemma plt_after_recover n cfg p h async panicked : p < n -> plt n (after_recover cfg p h async panicked).
+Proof.
+  intros Hp. apply Nat.ltb_lt in Hp. unfold after_recover. repeat apply plt_app;
+    [destruct (h_seq (r_spec h)) | destruct (panicked && c_panic_handler cfg) | destruct (c_obs cfg) | destruct async];
+    try apply plt_nil; intros i [<-|[]]; unfold pid_ok; cbn; try reflexivity; exact Hp.
+Qed.
+Lemma plt_call_handler n P p h async obs : p < n -> plt n (call_handler P p h async obs).
+Proof.
+  intros Hp. apply Nat.ltb_lt in Hp. unfold call_handler. repeat apply plt_app; try apply plt_acts;
+    [destruct obs | destruct (h_seq (r_spec h)) | | ]; try apply plt_nil; intros i [<-|[]]; unfold pid_ok; cbn; try reflexivity; exact Hp.
+Qed.
+Lemma plt_unwind n l p h async r : unwind l = Some (p, h, async, r) -> plt n l -> plt n r /\ p < n.
+Proof.
+  intros U Hl. apply unwind_spec in U. destruct U as [pre [-> _]]. split.
+  - intros i Hi. apply Hl. apply in_or_app. right. right. exact Hi.
+  - specialize (Hl (IRecover p h async)). unfold pid_ok in Hl. cbn in Hl. apply Nat.ltb_lt. apply Hl.
+    apply in_or_app. right. left. reflexivity.
+Qed.
+Lemma plt_head n i c p : plt n (i :: c) -> pid_of i = Some p -> p < n.
+Proof. intros H E. specialize (H i (or_introl eq_refl)). unfold pid_ok in H. rewrite E in H. apply Nat.ltb_lt. exact H. Qed.
+
+Ltac pl_tac Nr Hp :=
+  repeat first
+    [ exact Nr
+    | apply plt_nil
+    | (apply plt_after_recover; exact Hp)
+    | (apply plt_call_handler; exact Hp)
+    | apply plt_acts
+    | (apply plt_entries; exact Hp)
+    | apply plt_shards
+    | apply plt_cons; [unfold pid_ok; cbn [pid_of]; first [reflexivity | (apply Nat.ltb_lt; exact Hp)]|]
+    | apply plt_app
+    | match goal with |- plt _ (if ?b then _ else _) => destruct b end
+    | match goal with |- plt _ (match ?b with _ => _ end) => destruct b end
+    | (let i := fresh in let H := fresh in intros i H; destruct H as [<-|[]]; unfold pid_ok; cbn [pid_of]; first [reflexivity | (apply Nat.ltb_lt; exact Hp)])
+    | (let i := fresh in let H := fresh in intros i H; destruct H) ].
+
+Definition pidinv (s : bstate) : Prop :=
+  (forall a c, assoc_get (code s) a = Some c -> plt (next_pid s) c) /\
+  (forall p h, In (p, h) (entered s) -> p < next_pid s).
+
+Ltac fin_plt tac :=
+  split; [cbn [cont set_code set_registry next_pid]; rewrite ?upd_pub_next_pid; cbn [next_pid]; lia|];
+  split; [eexists; split;
+          [first [apply code_cont | (cbn [cont set_code code]; rewrite ?upd_pub_code; apply assoc_get_set_same)]
+          | cbn [cont set_code set_registry next_pid]; rewrite ?upd_pub_next_pid; cbn [next_pid]; tac]|];
+  split; [let p1 := fresh "p1" in let h1 := fresh "h1" in let Hin := fresh "Hin" in
+          intros p1 h1 Hin; left; cbn [cont set_code set_registry entered] in Hin; rewrite ?upd_pub_entered in Hin; exact Hin|];
+  let b := fresh "b" in let c0 := fresh "c0" in let Nba := fresh "Nba" in let Hb := fresh "Hb" in
+  intros b c0 Nba Hb; left; cbn [cont set_code code] in Hb; rewrite ?upd_pub_code in Hb; cbn [code] in Hb;
+  rewrite assoc_get_set_other in Hb by congruence; exact Hb.
+
+Lemma step_plt P cfg s a i rest s' ls :
+  plt (next_pid s) (i :: rest) -> step_instr P cfg s a i rest = Some (s', ls) ->
+  next_pid s <= next_pid s' /\
+  (exists newc, assoc_get (code s') a = Some newc /\ plt (next_pid s') newc) /\
+  (forall p h, In (p, h) (entered s') -> In (p, h) (entered s) \/ p < next_pid s) /\
+  (forall b c, b <> a -> assoc_get (code s') b = Some c -> assoc_get (code s) b = Some c \/ plt (next_pid s') c).
+Proof.
+  intros Nb H. pose proof (plt_tail _ _ _ Nb) as Nr.
+  assert (Hq : forall q, pid_of i = Some q -> q < next_pid s) by (intros q E; exact (plt_head _ _ _ _ Nb E)).
+  destruct i; cbn [step_instr] in H.
+  all: try (first [pose proof (Hq _ eq_refl) as Hp | pose proof I as Hp];
+            break_head H; try discriminate; inversion H; subst; clear H; solve [fin_plt ltac:(pl_tac Nr Hp)]).
+  - (* IDo *)
+    pose proof I as Hp.
+    destruct a0; cbn [step_instr] in H; break_head H; try discriminate; inversion H; subst; clear H;
+      try solve [fin_plt ltac:(pl_tac Nr Hp)].
+    + (* APub: the new publish *)
+      assert (Hp0 : next_pid s < S (next_pid s)) by lia.
+      pose proof (plt_weaken _ (S (next_pid s)) _ (Nat.le_succ_diag_r _) Nr) as Nr'.
+      split; [cbn [cont set_code next_pid]; lia|].
+      split; [eexists; split; [cbn [cont set_code code]; apply assoc_get_set_same | cbn [cont set_code next_pid]; pl_tac Nr' Hp0]|].
+      split; [intros p1 h1 Hin; left; exact Hin|].
+      intros b c0 Nba Hb. left. cbn [cont set_code code] in Hb. rewrite assoc_get_set_other in Hb by congruence. exact Hb.
+    + (* AShutdown: the waiter goroutine *)
+      split; [cbn [cont set_code next_pid]; lia|].
+      split; [eexists; split; [apply code_cont | cbn [cont set_code next_pid]; pl_tac Nr Hp]|]. split; [intros p1 h1 Hin; left; exact Hin|].
+      intros b c0 Nba Hb. cbn [cont set_code code] in Hb. rewrite assoc_get_set_other in Hb by congruence.
+      destruct (Nat.eq_dec (next_actor s) b) as [<-|N].
+      * rewrite assoc_get_set_same in Hb. inversion Hb; subst. right. intros x [<-|[]]. reflexivity.
+      * rewrite assoc_get_set_other in Hb by exact N. left. exact Hb.
+    + (* APanic recovered *)
+      match goal with U : unwind rest = Some (?p0, ?h, ?async, ?r) |- _ => destruct (plt_unwind _ rest p0 h async r U Nr) as [Nr2 Hp0] end.
+      fin_plt ltac:(apply plt_app; [apply plt_after_recover; exact Hp0 | exact Nr2]).
+  - (* IDispatch *)
+    pose proof (Hq _ eq_refl) as Hp.
+    break_head H; try discriminate; inversion H; subst; clear H; try solve [fin_plt ltac:(pl_tac Nr Hp)].
+    split; [cbn [cont set_code next_pid]; lia|].
+    split; [eexists; split; [apply code_cont | cbn [cont set_code next_pid]; exact Nr]|]. split; [intros p1 h1 Hin; left; exact Hin|].
+    intros b c0 Nba Hb. cbn [cont set_code code] in Hb. rewrite assoc_get_set_other in Hb by congruence.
+    destruct (Nat.eq_dec (next_actor s) b) as [<-|N].
+    + rewrite assoc_get_set_same in Hb. inversion Hb; subst. right. cbn [cont set_code next_pid].
+      intros x [<-|[]]. unfold pid_ok. cbn [pid_of]. apply Nat.ltb_lt. exact Hp.
+    + rewrite assoc_get_set_other in Hb by exact N. left. exact Hb.
+  - (* IEnter *)
+    pose proof (Hq _ eq_refl) as Hp. inversion H; subst; clear H.
+    split; [cbn [cont set_code next_pid]; lia|].
+    split; [eexists; split; [apply code_cont | cbn [cont set_code next_pid]; exact Nr]|]. split.
+    + intros p1 h1 Hin. cbn [cont set_code entered] in Hin. apply in_app_or in Hin. destruct Hin as [Hin|[E|[]]]; [left; exact Hin|].
+      inversion E; subst. right. exact Hp.
+    + intros b c0 Nba Hb. left. cbn [cont set_code code] in Hb. rewrite assoc_get_set_other in Hb by congruence. exact Hb.
+Qed.
+
+Lemma pidinv_step P cfg s a s' ls : pidinv s -> mstep P cfg s a = Some (s', ls) -> pidinv s'.
+Proof.
+  intros [Hc He] H. unfold mstep in H.
+  destruct (assoc_get (code s) a) as [[|i rest]|] eqn:Ha; try discriminate.
+  destruct (step_plt P cfg s a i rest s' ls (Hc a _ Ha) H) as (Hle & [newc [Hn Nn]] & Hent & Hoth).
+  split.
+  - intros b c Hb. destruct (Nat.eq_dec b a) as [->|Nb].
+    + rewrite Hn in Hb. inversion Hb; subst. exact Nn.
+    + destruct (Hoth b c Nb Hb) as [Hold|Hnew]; [eapply plt_weaken; [exact Hle | exact (Hc b c Hold)] | exact Hnew].
+  - intros p h Hin. destruct (Hent p h Hin) as [Hold|Hlt]; [specialize (He p h Hold); lia | lia].
+Qed.
+
+Lemma pidinv_init threads : pidinv (init_state threads).
+Proof.
+  split; [|intros p h []]. intros b c Hb. cbn [init_state code next_pid] in *.
+  assert (Hall : forall n (l : list (list action)) c, assoc_get (combine (seq n (length l)) (map acts l)) b = Some c -> plt 0 c).
+  { intros n l. revert n. induction l as [|y l IH]; intros n c0 Hc; [discriminate|].
+    cbn [length seq map combine assoc_get] in Hc. destruct (Nat.eqb n b); [inversion Hc; apply plt_acts | apply (IH (S n) c0 Hc)]. }
+  apply (Hall 0 threads c Hb).
+Qed.
+
+Lemma pidinv_run P cfg : forall sched s, pidinv s -> pidinv (fst (run P cfg s sched)).
+Proof.
+  induction sched as [|a r IH]; intros s I; cbn [run]; [exact I|].
+  destruct (mstep P cfg s a) as [[s' ls]|] eqn:E.
+  - specialize (IH s' (pidinv_step P cfg s a s' ls I E)). destruct (run P cfg s' r). exact IH.
+  - apply IH; assumption.
+Qed.
+
+(* nothing in the code, and nothing in the entry log, mentions a publish that has not been made yet *)
+Lemma plt_nobad p n c : n <= p -> plt n c -> nobad p c.
+Proof.
+  intros Hle H i Hi. specialize (H i Hi). unfold pid_ok in H.
+  destruct i; cbn [badp pid_of] in *; try reflexivity; apply Nat.ltb_lt in H;
+    try (apply Nat.eqb_neq; lia);
+    (destruct (Nat.eqb p0 p) eqn:E; [apply Nat.eqb_eq in E; lia | reflexivity]).
+Qed.
+
+Definition preinv (p : nat) (s : bstate) : Prop :=
+  is_cancelled s (pb_ctx (get_pub s p)) = true /\ p < next_pid s /\
+  (forall a c, assoc_get (code s) a = Some c -> nobad p c) /\
+  (forall h, ~ In (p, h) (entered s)).
+
+Lemma preinv_step P cfg p s a s' ls : preinv p s -> mstep P cfg s a = Some (s', ls) -> preinv p s'.
+Proof.
+  intros (Hc & Hp & Hcode & Hent) H. pose proof H as Hm. unfold mstep in H.
+  destruct (assoc_get (code s) a) as [[|i rest]|] eqn:Ha; try discriminate.
+  destruct (step_pub_ctx P cfg s a i rest s' ls p H Hp) as [Ectx Hp'].
+  destruct (step_nobad p P cfg s a i rest s' ls Hc Hp (Hcode a _ Ha) H) as ([newc [Hn Nn]] & He & Hoth).
+  split; [rewrite Ectx; apply (cancellation_is_permanent P cfg s a s' ls _ Hm Hc)|]. split; [exact Hp'|]. split.
+  - intros b c Hb. destruct (Nat.eq_dec b a) as [->|Nb].
+    + rewrite Hn in Hb. inversion Hb; subst. exact Nn.
+    + destruct (Hoth b c Nb Hb) as [Hold|Hnew]; [exact (Hcode b c Hold) | exact Hnew].
+  - intros h Hin. apply (Hent h). apply He. exact Hin.
+Qed.
+
+Lemma preinv_run P cfg p : forall sched s, preinv p s -> preinv p (fst (run P cfg s sched)).
+Proof.
+  induction sched as [|a r IH]; intros s I; cbn [run]; [exact I|].
+  destruct (mstep P cfg s a) as [[s' ls]|] eqn:E.
+  - specialize (IH s' (preinv_step P cfg p s a s' ls I E)). destruct (run P cfg s' r). exact IH.
+  - apply IH; assumption.
+Qed.
+
+(* C08, over every schedule: a publish made with a context that is already cancelled enters no handler, ever.
+   s is any reachable state in which goroutine a is about to execute the publish; whatever schedule follows, the
+   entry log never contains an entry for that publish. *)
+Theorem precancelled_publish_enters_nothing P cfg s a t v c any rest s1 ls sched :
+  reachable P cfg s ->
+  assoc_get (code s) a = Some (IDo (APub t v c any) :: rest) -> is_cancelled s c = true ->
+  mstep P cfg s a = Some (s1, ls) ->
+  forall h, ~ In (next_pid s, h) (entered (fst (run P cfg s1 sched))).
+Proof.
+  intros [threads [sched0 ->]] Ha Hc Hm.
+  set (s := fst (run P cfg (init_state threads) sched0)) in *.
+  pose proof (pidinv_run P cfg sched0 _ (pidinv_init threads)) as [Pc Pe]. fold s in Pc, Pe.
+  assert (Pre : preinv (next_pid s) s1).
+  { pose proof Hm as Hm'. unfold mstep in Hm'. rewrite Ha in Hm'. cbn [step_instr] in Hm'. inversion Hm'; subst s1 ls; clear Hm'.
+    split; [|split; [|split]].
+    - unfold get_pub. cbn [cont set_code pubs]. rewrite assoc_get_set_same. cbn [pb_ctx].
+      destruct c as [|k]; [discriminate Hc | exact Hc].
+    - cbn [cont set_code next_pid]. lia.
+    - intros b c0 Hb. cbn [cont set_code code] in Hb. destruct (Nat.eq_dec b a) as [->|Nb].
+      + rewrite assoc_get_set_same in Hb. inversion Hb; subst c0.
+        pose proof (plt_nobad (next_pid s) (next_pid s) rest (le_n _) (plt_tail _ _ _ (Pc a _ Ha))) as Nr.
+        nb_tac Nr.
+      + rewrite assoc_get_set_other in Hb by congruence. apply (plt_nobad _ _ _ (le_n _) (Pc b c0 Hb)).
+    - intros h Hin. cbn [cont set_code entered] in Hin. specialize (Pe _ _ Hin). lia. }
+  intros h. apply (preinv_run P cfg (next_pid s) sched s1 Pre).
+Qed.
+
 (* ================================================================== *)
 (* C09 / C13: over every schedule the store's log only ever grows at its end (no record is removed, rewritten or
    inserted in the middle, whatever fails) and the record count equals the number of successful appends *)
